@@ -261,6 +261,7 @@ func VxC19_Dominators() {
 // loops that need a third pass of the fix-point iteration first appear at 5 nodes.
 //
 //vx:tier 1
+//vx:budget 9000
 //vx:solver z3-new
 //vx:maxdec 100000
 //vx:bound 5 nodes, out-degree <= 2 per node, at most 7 edges in total, root 0 (the family is closed under renaming nodes, so this covers every root)
